@@ -238,12 +238,14 @@ def rec_toplain(soc, a):
     return dict(fn="toplain", soc=W.soc_json(a), out=W.sys_json(out)), views, out, plain
 
 
-def rec_interp(rng, s0, s1, a, den, var=None, use_pointgroup=1, reuse=False):
+def rec_interp(rng, s0, s1, a, den, var=None, use_pointgroup=1, reuse=False, shuffle=False):
     from wannierberri.system.interpolate import SystemInterpolator
     from . import _sysalg_ops as O
     with quiet(), warnings.catch_warnings():
         warnings.simplefilter("ignore")
         r0, r1 = W.build(s0, **_bkw(var)), W.build(s1, **_bkw(var))
+        if shuffle:
+            W.shuffle_R(r1)
         itp = W.under_test(SystemInterpolator, r0, r1, use_pointgroup=use_pointgroup) if use_pointgroup != 1 else W.under_test(SystemInterpolator, r0, r1)
         if reuse:
             O._mutate(W.under_test(itp.interpolate, a / den))
@@ -257,14 +259,16 @@ def scaled_soc_data(rng, nw, scale):
     return rsS, {st: {R: D[st][R] * scale for R in rsS} for st in D}
 
 
-def rec_interp_soc(rng, a, den, ks, nw=None, var=None):
-    """SystemInterpolatorSOC between two spin-orbit systems with SOC terms (all data multiples of den): H(k) of Data_K_soc"""
+def rec_interp_soc(rng, a, den, ks, nw=None, var=None, nspins=(2, 2)):
+    """SystemInterpolatorSOC between two spin-orbit systems with SOC terms (all data multiples of den): H(k) of Data_K_soc.
+    nspins: the numbers of spin channels of the two systems; a system with one channel (SystemSOC(up)) is described abstractly with
+    down = up and all SOC blocks from the 0,0 block, so that in a mixed pair it contributes its single channel to both channels of the result"""
     from wannierberri.system.interpolate import SystemInterpolatorSOC
     nw = nw or rng.choice([1, 2])
     socs = []
-    for _ in range(2):
+    for nspin in nspins:
         up, dn = rand_sys(rng, nw=nw, with_x=False, scale=den), rand_sys(rng, nw=nw, with_x=False, scale=den)
-        socs.append(make_real_soc(up, dn, scaled_soc_data(rng, nw, den), rng.randint(0, 3), rng.randint(0, 3), rng.choice([1, 2, -1]), var=var))
+        socs.append(make_real_soc(up, dn, scaled_soc_data(rng, nw, den), rng.randint(0, 3), rng.randint(0, 3), rng.choice([1, 2, -1]), nspin=nspin, var=var))
     (r0, a0), (r1, a1) = socs
     with quiet(), warnings.catch_warnings():
         warnings.simplefilter("ignore")
@@ -273,5 +277,6 @@ def rec_interp_soc(rng, a, den, ks, nw=None, var=None):
         hk = W._round_gauss(W.under_test(W.real_hk, res, ks), "Data_K_soc.HH_K of the interpolated system")
     for x in (a0, a1):
         x.pop("ret", None)
-    rec = dict(fn="interp_soc", soc0=W.soc_json(a0), soc1=W.soc_json(a1), a=a, den=den, ks=[list(k) for k in ks], hk=[W.mat_json(h) for h in hk])
+    rec = dict(fn="interp_soc", soc0=W.soc_json(a0), soc1=W.soc_json(a1), a=a, den=den, ks=[list(k) for k in ks], hk=[W.mat_json(h) for h in hk],
+               nspins=list(nspins))
     return rec, res, (a0, a1)
